@@ -108,7 +108,10 @@ def _impl_trace(case):
 def _eq(a, b):
     import pandas as pd
     if isinstance(a, np.ndarray) or isinstance(b, np.ndarray):
-        return np.array_equal(np.asarray(a), np.asarray(b), equal_nan=True)
+        try:
+            return np.array_equal(np.asarray(a), np.asarray(b), equal_nan=True)
+        except TypeError:       # structured arrays (multiple_collective)
+            return np.array_equal(np.asarray(a), np.asarray(b))
     if isinstance(a, (pd.DataFrame, pd.Series)):
         return a.equals(b)
     if isinstance(a, (tuple, list)):
@@ -159,16 +162,36 @@ def _impl_real(case):
             plan += [(n, j, 'matrix', (), {}), (n, j, 'counter', (), {}), (n, j, '_counter', (), {}),
                      (n, j, 'jump_diffusivity', (3,), {}), (n, j, 'jump_diffusivity', (2,), {}), (n, j, 'to_graph', (), {}),
                      (n, j, 'collective', (), {}), (n, j, 'collective', (2.0,), {})]
+            from gemdat.collective import Collective
+            co = Collective(jumps=j, sites=tr.sites, lattice=traj.get_lattice(), max_steps=8, max_dist=3.5)
+            plan += [(n, co, 'site_pair_count_matrix_labels', (), {}), (n, co, 'site_pair_count_matrix', (), {}), (n, co, 'multiple_collective', (), {})]
+        plan += [(n, mt, 'mol_per_liter', (), {}), (n, mt, 'tracer_diffusivity_center_of_mass', (), {'dimensions': 3})]
     order = list(range(len(plan))) * 2
     r.shuffle(order)
+    import copy
+    first = {}
+
+    def call(f):
+        try:
+            return ('value', f())
+        except Exception as e:        # a method may legitimately reject an input; cached and uncached must then reject alike
+            return ('raises', type(e).__name__)
+
     for idx in order:
         n, o, name, a, kw = plan[idx]
-        got = getattr(o, name)(*a, **kw)
-        want = getattr(type(o), name).__wrapped__(o, *a, **kw)
+        got = call(lambda: getattr(o, name)(*a, **kw))
+        want = call(lambda: getattr(type(o), name).__wrapped__(o, *a, **kw))
         checked += 1
-        if not _eq(got, want):
+        if got[0] != want[0] or (got[0] == 'raises' and got[1] != want[1]) or (got[0] == 'value' and not _eq(got[1], want[1])):
             problems.append(f'{type(o).__name__}.{name}{a}{kw} of object {n} differs from the uncached recomputation')
+        # the value handed out earlier must not have been altered since (by this or any other method)
+        if got[0] == 'value' and type(got[1]).__name__ != 'Collective':
+            if idx in first and not _eq(first[idx][0], first[idx][1]):
+                problems.append(f'the value returned earlier by {type(o).__name__}.{name}{a}{kw} of object {n} was modified afterwards')
+            if idx not in first:
+                first[idx] = (got[1], copy.deepcopy(got[1]))
         del got, want
+    del first
     # liveness, attributed per cached method: fresh object, one cached call, drop, collect
     from gemdat.transitions import Transitions
     traj, tr, j, mt = objs[0]
@@ -180,6 +203,9 @@ def _impl_real(case):
                                events=tr.events, states=tr.states, inner_states=tr.inner_states)
         if cls == 'Jumps':
             return Jumps(tr)
+        if cls == 'Collective':
+            from gemdat.collective import Collective
+            return Collective(jumps=j, sites=tr.sites, lattice=traj.get_lattice(), max_steps=8, max_dist=3.5)
         return TrajectoryMetrics(traj)
 
     seen = set()
